@@ -82,7 +82,7 @@ func DrawConfig(rt *rapid.T, p *Profile) Config {
 			o.Name = controller.DefaultNodeGroup
 		} else if rapid.IntRange(0, 7).Draw(rt, "oddName") == 0 {
 			// only the exact name "default" is the default group; these are ordinary labelled groups
-			o.Name = rapid.SampledFrom([]string{"Default", "DEFAULT", "default-pool", "defaults", "default "}).Draw(rt, "name") + fmt.Sprint(g)[:0]
+			o.Name = rapid.SampledFrom([]string{"Default", "DEFAULT", "default-pool", "defaults", "default ", fmt.Sprintf("asg-%d", (g+1)%ng), fmt.Sprintf("asg-%d", (g+ng-1)%ng)}).Draw(rt, "name") + fmt.Sprint(g)[:0]
 			for _, prev := range cfg.Groups {
 				if prev.Opts.Name == o.Name {
 					o.Name = fmt.Sprintf("grp%d", g)
@@ -809,6 +809,52 @@ func (w *World) DrawAction(rt *rapid.T, p *Profile) (Action, string) {
 				{Op: "scan", Flag: true},
 			}}, "belowMinWithCordoned"
 		}
+	case "oddTaintAtFloor": // a newer node carries the escalator taint key with a value that is not a time; utilisation is low
+		if names := w.GroupNodeNames(g); len(names) >= 2 {
+			x := names[len(names)-1-rapid.IntRange(0, minInt(1, len(names)-1)).Draw(rt, "fromNewest")]
+			tp, _ := w.drawTargetPods(rt, g, "zero", "belowL")
+			return Action{Op: "seq", Seq: []Action{
+				{Op: "taint", Node: x, Key: ref.TaintKey, Val: rapid.SampledFrom([]string{"", "", "maintenance", "true"}).Draw(rt, "value"), Effect: "NoSchedule"},
+				tp, {Op: "scan", Flag: true},
+			}}, "oddTaintAtFloor"
+		}
+	case "sizeChangesThenZero": // the controller sees one node size, then another, then the group empties and pods arrive
+		if names := w.GroupNodeNames(g); len(names) > 0 && len(names) <= 12 {
+			via := "selector"
+			if w.Cfg.Groups[g].Opts.Name == controller.DefaultNodeGroup {
+				via = "none"
+			}
+			factor := rapid.SampledFrom([]int{2, 3, 4}).Draw(rt, "factor")
+			seq := []Action{{Op: "scan", Flag: true}}
+			for _, n := range names {
+				seq = append(seq, Action{Op: "resizeNode", Node: n, N: factor})
+			}
+			seq = append(seq, Action{Op: "scan", Flag: true}, Action{Op: "zeroOut", Group: g}, Action{Op: "clearPods", Group: g},
+				Action{Op: "addPods", Group: g, Pods: []PodSpec{{Group: g, Via: via, CPU: w.Cfg.Groups[g].NodeCPU * int64(factor) * int64(rapid.IntRange(2, 4).Draw(rt, "nodesWorth")), Mem: 1_000_000}}},
+				Action{Op: "scan", Flag: true})
+			return Action{Op: "seq", Seq: seq}, "sizeChangesThenZero"
+		}
+	case "unevenStarve": // the node with most free CPU is not the node with most free memory; a pending pod fits the latter
+		var free []string
+		for _, n := range w.GroupNodeNames(g) {
+			if ref.Classify(w.K.Nodes[n]) == ref.Untainted {
+				free = append(free, n)
+			}
+		}
+		if len(free) >= 2 {
+			via := "selector"
+			if w.Cfg.Groups[g].Opts.Name == controller.DefaultNodeGroup {
+				via = "none"
+			}
+			c, m := w.Cfg.Groups[g].NodeCPU, w.Cfg.Groups[g].NodeMem
+			pend := rapid.IntRange(40, 85).Draw(rt, "pendingMemPct")
+			pods := []PodSpec{
+				{Group: g, Via: via, CPU: c / 10, Mem: m * 7 / 10, Node: free[0]},
+				{Group: g, Via: via, CPU: c * 6 / 10, Mem: m / 10, Node: free[1]},
+				{Group: g, Via: via, CPU: c / 10, Mem: m * int64(pend) / 100},
+			}
+			return Action{Op: "seq", Seq: []Action{{Op: "setPods", Group: g, Pods: pods}, {Op: "scan", Flag: true}}}, "unevenStarve"
+		}
 	case "pinAsg": // the ASG is pinned (min == max) at or just below the group's node count while utilisation is low
 		if n := len(w.GroupNodeNames(g)); n > 0 {
 			pin := n - rapid.IntRange(0, 1).Draw(rt, "below")
@@ -953,7 +999,7 @@ func (w *World) DrawAction(rt *rapid.T, p *Profile) (Action, string) {
 		}
 		return Action{Op: "seq", Seq: []Action{
 			{Op: "zeroOut", Group: g}, {Op: "clearPods", Group: g},
-			{Op: "oddNode", Group: g, Key: rapid.SampledFrom([]string{"tinycpu", "tinymem"}).Draw(rt, "kind"), N: rapid.IntRange(0, 5000).Draw(rt, "age")},
+			{Op: "oddNode", Group: g, Key: rapid.SampledFrom([]string{"tinycpu", "tinymem", "nocpu", "zerocpu"}).Draw(rt, "kind"), N: rapid.IntRange(0, 5000).Draw(rt, "age")},
 			{Op: "scan", Flag: true}, {Op: "zeroOut", Group: g},
 			{Op: "addPods", Group: g, Pods: []PodSpec{{Group: g, Via: via, CPU: int64(rapid.IntRange(1, 3000).Draw(rt, "cpu")), Mem: int64(rapid.IntRange(1, 4000).Draw(rt, "mem")) * 1_000_000}}},
 			{Op: "scan", Flag: true},
